@@ -170,8 +170,9 @@ var specC21s = vstat.Spec[c21sCase]{
 	Property: "C21",
 	Rule: "the real Client on a scripted relay: while a Send is in flight the relay delivers 1-4 acknowledgements naming the message or other messages (seqno+-1, +2, +-1000); then, with a message pending for a lazy application, 0-3 clears naming it or other messages; " +
 		"oracle: Send returns only after the acknowledgement naming its own message; a pending message survives clears naming other messages and is withdrawn by a clear naming it; non-trivial = at least one acknowledgement or clear naming another message",
-	Gen:   genC21s,
-	Check: checkC21s,
+	Gen:      genC21s,
+	Check:    checkC21s,
+	Inflight: true,
 }
 
 func TestC21Script(t *testing.T)       { vstat.Check(t, specC21s) }
